@@ -212,6 +212,8 @@ class _Agg:
 
     def add_result(self, space, case, r):
         self.cases += 1
+        self.states += r.get('add_states', 0)
+        self.transitions += r.get('add_transitions', 0)
         self.evals += r.get('evals', 1)
         self.traces += r.get('traces', 0)
         v = r['v']
